@@ -36,20 +36,106 @@ flow patience
   bot ask "still there?"
 '''
 
+# the avatar library: interruption handling, posture management (flows in loops of their own that track the talking state),
+# gestures and a choice dialog
+LIB_MAIN_AVATAR = '''
+flow main
+  activate tracking bot talking state
+  activate tracking user talking state
+  activate handling bot talking interruption $mode="inform"
+  activate managing bot postures
+  activate gesture reaction
+  activate choice dialog
+  activate small talk
+  match Never()
+
+flow gesture reaction
+  user gestured "wave"
+  bot gesture "wave back"
+  bot say "hello there, this is a rather long sentence that somebody may talk over"
+
+flow choice dialog
+  user said "menu"
+  start scene show choice $prompt="pick one" $options=[{"id": "a", "text": "first"}, {"id": "b", "text": "second"}]
+  user selected choice "a"
+  bot say "first it is"
+
+flow small talk
+  user said "hi"
+  bot gesture with delay "nod" 1.0
+  bot express "hello"
+'''
+
+# the notification flows for Colang errors / undefined flows / unexpected utterances, and the other timing flows
+LIB_MAIN_NOTIFY = '''
+flow main
+  activate notification of colang errors
+  activate notification of undefined flow start
+  activate notification of unexpected user utterance
+  activate faulty
+  activate ghost starter
+  activate silence watch
+  activate nagging
+  activate greeting
+  match Never()
+
+flow faulty
+  user said "break"
+  $x = 1 / 0
+  bot say "never said"
+
+flow ghost starter
+  user said "ghost"
+  send StartFlow(flow_id="no such flow")
+  bot say "asked for a ghost"
+
+flow silence watch
+  user didnt respond 3.0
+  bot ask "hello?"
+
+flow nagging
+  bot was silent 5.0
+  bot inform "still here"
+
+flow greeting
+  user said "hi"
+  bot say "hello"
+'''
+
+LIB_VARIANTS = [(("core.co", "timing.co"), LIB_MAIN), (("core.co", "timing.co", "avatars.co"), LIB_MAIN_AVATAR), (("core.co", "timing.co"), LIB_MAIN_NOTIFY)]
 _lib_cache = {}
 
 
-def library_program():
-    if "t" not in _lib_cache:
+def library_program(variant=0):
+    if variant not in _lib_cache:
         import nemoguardrails
 
         base = os.path.join(os.path.dirname(nemoguardrails.__file__), "colang", "v2_x", "library")
+        files, main = LIB_VARIANTS[variant]
         parts = []
-        for name in ("core.co", "timing.co"):
+        for name in files:
             with open(os.path.join(base, name)) as f:
                 parts.append("\n".join(l for l in f.read().split("\n") if not l.startswith("import ")))
-        _lib_cache["t"] = "\n".join(parts) + "\n" + LIB_MAIN
-    return _lib_cache["t"]
+        _lib_cache[variant] = "\n".join(parts) + "\n" + main
+    return _lib_cache[variant]
+
+
+def library_delivery(d, i, variant):
+    """One external event for the library batch: final / interim user utterances, and for the avatar variant gestures and choices."""
+    kinds = [("said", 6), ("saying", 2), ("started", 1)]
+    if variant == 1:
+        kinds += [("gesture", 2), ("choice", 2)]
+    k = d.weighted(kinds, "lk", i)
+    texts = USER_TEXTS + (["menu", "stop", "please stop talking now, I want to say something"] if variant == 1 else ["break", "ghost", "unexpected words"] if variant == 2 else [])
+    if k == "said":
+        return {"type": "UtteranceUserActionFinished", "final_transcript": d.choice(texts, "ut", i), "action_uid": "user-%d" % i, "is_success": True}
+    if k == "saying":
+        return {"type": "UtteranceUserActionTranscriptUpdated", "interim_transcript": d.choice(texts, "ut", i), "action_uid": "user-%d" % i}
+    if k == "started":
+        return {"type": "UtteranceUserActionStarted", "action_uid": "user-%d" % i}
+    if k == "gesture":
+        return {"type": "GestureUserActionFinished", "gesture": d.choice(["wave", "nod"], "ug", i), "action_uid": "gest-%d" % i, "is_success": True}
+    return {"type": "VisualChoiceSceneActionChoiceUpdated", "current_choice": [d.choice(["a", "b"], "uc", i)], "action_uid": "choice-%d" % i}
 
 
 USER_TEXTS = ["hi", "something else", "hi", ""]
@@ -60,11 +146,11 @@ class C09(InterpProp):
     level = "exploration"
     technique = "deterministic simulation of the Colang 2 interpreter as an event-driven node (SimClient delivers user and action events with delays/drops/duplicates, virtual clock, decided tie-breaks); state invariants recomputed from scratch after every step; exhaustive histories for small alphabets"
     rule = ("three batches: (a) random programs of the grammar (start/await/activate/when/groups/if/while/actions/abort) driven by seeded user events and a UMIM client that delivers "
-            "Started/Finished late, early, never or twice, with clock gaps up to 30 s; (b) the shipped core+timing libraries with user utterances and timers; (c) ALL event histories up to length L "
+            "Started/Finished late, early, never or twice, with clock gaps up to 30 s; (b) the shipped core+timing+avatars libraries in three arrangements (dialog with timers; posture/interruption management, gestures, choice dialog; error/undefined-flow/unexpected-utterance notifications) with final and interim user utterances, gestures, choices and timers; (c) ALL event histories up to length L "
             "over an alphabet of <= 4 events for small programs. evaluations = processed external events; non-trivial = steps that moved at least one head or changed a flow status; "
             "distinct = distinct normalised interpreter states (flow ids, statuses, head positions)")
     exhaustive_parts = ["all event histories up to length 4 (quick) / 5 (thorough) over {E1, E2, E3(x=1), E3(x=2)} for the small programs of batch (c)"]
-    expected_probes = ["batch_random", "batch_library", "batch_exhaustive", "cleanup_removed_flows", "tie_break_decided", "action_fault_delivered"]
+    expected_probes = ["batch_random", "batch_library", "library_variant_1", "library_variant_2", "batch_exhaustive", "cleanup_removed_flows", "tie_break_decided", "action_fault_delivered"]
     quick_runs = 1600
     thorough_runs = 120000
 
@@ -74,8 +160,12 @@ class C09(InterpProp):
             sc = gen_interp_scenario(d, finishing_main=True)
         elif kind == "library":
             n = d.randint(2, 8, "n")
-            dels = [{"type": "UtteranceUserActionFinished", "final_transcript": d.choice(USER_TEXTS, "ut", i), "action_uid": "user-%d" % i, "is_success": True} for i in range(n)]
-            sc = {"program_text": "LIBRARY", "deliveries": dels, "client": {"seed": d.randint(0, 1 << 30, "cs"), "faults": [f for f in ("late", "dup", "never") if d.chance(0.3, "lf", f)]},
+            variant = d.randint(0, len(LIB_VARIANTS) - 1, "libvariant")
+            if variant == 0:
+                dels = [{"type": "UtteranceUserActionFinished", "final_transcript": d.choice(USER_TEXTS, "ut", i), "action_uid": "user-%d" % i, "is_success": True} for i in range(n)]
+            else:
+                dels = [library_delivery(d, i, variant) for i in range(n + 2)]
+            sc = {"program_text": "LIBRARY", "lib_variant": variant, "deliveries": dels, "client": {"seed": d.randint(0, 1 << 30, "cs"), "faults": [f for f in ("late", "dup", "never") if d.chance(0.3, "lf", f)]},
                   "tie_seed": d.randint(0, 1 << 30, "ts"), "gap_seed": d.randint(0, 1 << 30, "gs")}
         else:
             sc = gen_interp_scenario(d, with_faults=False, n_flows=d.randint(2, 3, "nf"), allow_actions=False, max_body=3, finishing_main=True)
@@ -91,7 +181,8 @@ class C09(InterpProp):
         out.probe("batch_" + sc.get("batch", "random"))
         if sc.get("batch") == "library":
             sc = dict(sc)
-            sc["program_text"] = library_program()
+            sc["program_text"] = library_program(sc.get("lib_variant", 0))
+            out.probe("library_variant_%d" % sc.get("lib_variant", 0))
         if sc.get("batch") == "exhaustive" and sc.get("exhaustive_len"):
             alphabet = [{"type": "E1"}, {"type": "E2"}, {"type": "E3", "x": 1}, {"type": "E3", "x": 2}]
             out.evaluations = 0
@@ -157,7 +248,7 @@ class C09(InterpProp):
                 else:
                     out.inconclusive = "run_to_completion raised %s" % type(e).__name__
         if keep_sample:
-            out.sample = {"batch": sc.get("batch"), "program": program_brief(sc) if sc.get("batch") != "library" else "<core.co + timing.co>" + LIB_MAIN, "deliveries": sc["deliveries"][:8],
+            out.sample = {"batch": sc.get("batch"), "program": program_brief(sc) if sc.get("batch") != "library" else "<%s>" % " + ".join(LIB_VARIANTS[sc.get("lib_variant", 0)][0]) + LIB_VARIANTS[sc.get("lib_variant", 0)][1], "deliveries": sc["deliveries"][:8],
                           "client_faults": sc["client"]["faults"], "steps": len(res.steps)}
         out.interleaving = tuple((IR._norm_event(r.event).get("type") if isinstance(r.event, dict) else r.event) for r in res.steps)
 
